@@ -108,7 +108,13 @@ def reader_cls(block):
 
 
 STREAM_KINDS = ['buffered-16', 'buffered-40', 'buffered-96', 'buffered-97',
-                'buffered-4096', 'buffered-8192', 'file', 'peekable']
+                'buffered-4096', 'buffered-8192', 'file', 'peekable',
+                'prefixed-29', 'prefixed-4093', 'prefixed-buffered-72']
+
+# what precedes the DiffX data in a 'prefixed' stream (a mail header, an
+# export banner): consumed by the caller before the reader gets the stream
+PREFIX_LINE = b'X-Exported-By: tool 1.0 (consumed by the caller)\n'
+
 
 
 class Peekable(io.BytesIO):
@@ -127,6 +133,15 @@ def open_stream(data, kind):
                                  buffer_size=int(kind.split('-')[1]))
     if kind == 'peekable':
         return Peekable(data)
+    if kind.startswith('prefixed-'):
+        n = int(kind.rsplit('-', 1)[1])
+        prefix = (PREFIX_LINE * (n // len(PREFIX_LINE) + 1))[:n - 1] + b'\n'
+        if 'buffered' in kind:
+            st = io.BufferedReader(io.BytesIO(prefix + data), buffer_size=64)
+        else:
+            st = io.BytesIO(prefix + data)
+        assert st.read(n) == prefix
+        return st
     if kind == 'file':
         import tempfile
         f = tempfile.TemporaryFile()
@@ -359,8 +374,9 @@ def plan(tier):
                 'Stream kinds: every file (plus two whose later headers lie '
                 'just after offsets 4096 / 8192) x every padding read through '
                 'io.BufferedReader with buffer sizes 16 / 40 / 96 / 97 / 4096 / '
-                '8192, a real temporary file and a peek()-capable in-memory '
-                'stream. Non-trivial: some header line is at least one block '
+                '8192, a real temporary file, a peek()-capable in-memory '
+                'stream, and streams whose first 29 / 72 / 4093 bytes were '
+                'consumed by the caller before the reader got them. Non-trivial: some header line is at least one block '
                 'long.'
                 % (len(files), len(PADS), len(blocks), HAS_CHUNK_PARAM),
         'bound': 'pads 0..197 x blocks %s' % ('quick list' if tier == 'quick'
